@@ -12,6 +12,7 @@ mod zoo_gen;
 mod mutate;
 mod schemagen;
 mod schemaread;
+mod intro;
 
 use std::collections::BTreeMap;
 use std::io::Write;
@@ -96,6 +97,50 @@ fn main() {
                 for &v in &e.versions {
                     writeln!(out, "(packed @{} {})\t(ok {})", e.name, v, (e.packed)(v)).unwrap();
                 }
+            }
+        }
+        // C17: introspection self-consistency and navigation histories
+        "introspect" => {
+            let mut stats: BTreeMap<String, u64> = BTreeMap::new();
+            for e in selected(&reg, &a) {
+                let mut r = Rng::new(name_seed(a.seed, &e.name, 17));
+                for i in 0..a.cases {
+                    let sz = if i % 5 == 4 { a.size * 3 } else if i % 3 == 0 { 2 } else { a.size };
+                    let ncmds = 4 + (i % 9);
+                    let (viol, req, reply, nodes) = (e.intro)(&e.name, &mut r, sz, ncmds);
+                    if req.is_empty() {
+                        continue;
+                    }
+                    for v in viol {
+                        writeln!(out, "!C17 {} type={}", v, e.name).unwrap();
+                    }
+                    writeln!(out, "{}\t{}", req, reply).unwrap();
+                    *stats.entry(format!("nodes<{}", bucket(nodes))).or_default() += 1;
+                    for k in ["(ok ", "(err BadDepth", "(err UnknownKey", "(err NoChildren", "(err IndexOutOfRange", "(err AlreadyAtTop", "(panic"] {
+                        *stats.entry(format!("reply{}", k.replace(' ', ""))).or_default() += reply.matches(k).count() as u64;
+                    }
+                    for k in ["(x ", "(s ", "(u)", "(n)"] {
+                        *stats.entry(format!("cmd{}", k.replace(' ', ""))).or_default() += req.matches(k).count() as u64;
+                    }
+                }
+            }
+            if a.filter.is_none() || a.filter.as_deref() == Some("extras") {
+                let mut r = Rng::new(name_seed(a.seed, "extras", 17));
+                for (name, (viol, req, reply, nodes)) in intro::extras(&mut r, a.cases * 4, true) {
+                    for v in viol {
+                        writeln!(out, "!C17 {} type={}", v, name).unwrap();
+                    }
+                    writeln!(out, "{}\t{}", req, reply).unwrap();
+                    *stats.entry(format!("nodes<{}", bucket(nodes))).or_default() += 1;
+                    *stats.entry("extra-cases".into()).or_default() += 1;
+                    *stats.entry("reply(panic".into()).or_default() += reply.matches("(panic").count() as u64;
+                    let deep = reply.matches("(f ").count();
+                    *stats.entry("frames-total".into()).or_default() += deep as u64;
+                    *stats.entry("disambiguator>0".into()).or_default() += reply.matches(" 1 ").count() as u64;
+                }
+            }
+            for (k, v) in stats {
+                writeln!(out, "#stat {} {}", k, v).unwrap();
             }
         }
         // S-enc + S-dec on valid data + direct round-trip oracle (C01)
